@@ -129,6 +129,9 @@ class MockCA:
             "delay_ms": 0,
             "chain_form": None,           # byte form of the served chain (see `chain_form`); a list: one per issuance
             "challenge_types_for": {},    # identifier value -> challenge types offered for THAT authorization
+            "challenge_status_for": {},   # identifier value -> {challenge type: status that challenge object is CREATED with}
+                                          # (RFC 8555 7.1.6: "processing" = answered earlier, validation not concluded; the
+                                          # authorization itself stays pending unless `authz_status` says otherwise)
             "wildcard_false_explicit": False,   # non-wildcard authorizations say "wildcard": false
             "order_ident_order": None,    # "reversed": the order object lists the identifiers in reverse
             "order_ident_ip": None,       # "exploded": IPv6 identifiers of the order object fully written out
@@ -631,7 +634,8 @@ class MockCA:
                         self.obj_ctr += 1
                         cid = str(self.obj_ctr)
                         tok = b64u(os.urandom(16))
-                        self.challs[cid] = {"authz": aid, "type": ct, "token": tok, "status": "pending"}
+                        self.challs[cid] = {"authz": aid, "type": ct, "token": tok,
+                                            "status": (o.get("challenge_status_for") or {}).get(val, {}).get(ct, "pending")}
                         challs.append(cid)
                     self.authzs[aid] = {"identifier": {"type": ident["type"], "value": shown},
                                         "wildcard": wildcard, "order": oid, "challs": challs,
@@ -686,7 +690,8 @@ class MockCA:
                     c["status"] = "invalid"
                     a["status"] = "invalid"
                 else:
-                    c["status"] = "processing"
+                    if c["status"] != "valid":     # (a ready POST never takes a challenge BACK; processing stays processing)
+                        c["status"] = "processing"
                     if a["status"] == "pending":
                         a["status"] = "processing"
                 return {"status": 200, "body": self.chall_body(cid)}
@@ -877,9 +882,18 @@ class MockCA:
             time.sleep(ans["delay_ms"] / 1000.0)
         if ans.get("drop"):
             arec["drop"] = True
+            if ans["drop"] == "reset":
+                # {"drop": "reset"}: the connection is RESET (RST, SO_LINGER 0) instead of closed after the request
+                # was read (and logged as an arrival): the client sees "connection reset by peer"
+                arec["reset"] = True
             self.ev(**arec)
             try:
-                rq.connection.shutdown(socket.SHUT_RDWR)
+                if ans["drop"] == "reset":
+                    import struct
+                    rq.connection.setsockopt(socket.SOL_SOCKET, socket.SO_LINGER, struct.pack("ii", 1, 0))
+                    rq.connection.close()
+                else:
+                    rq.connection.shutdown(socket.SHUT_RDWR)
             except Exception:
                 pass
             rq.close_connection = True
@@ -909,6 +923,29 @@ class MockCA:
                      "ctype": ctype})
         if ans.get("cut_after") is not None:
             arec["cut_after"] = ans["cut_after"]
+        # Retry-After (RFC 8555 6.6, 7.5.1): answer key `retry_after` (a rule's answer), else the CA options
+        # `retry_after_polls` (2xx answers to POSTs on authorization / order URLs: what a client polls) and
+        # `retry_after_errors` (429 / 503 answers).  Values: "0", "1", "120", …; "date+N" = the HTTP-date N s from
+        # now; a list = one value per answer of that class, the last one repeated; None / absent = no header.
+        retry_after = ans.get("retry_after")
+        if retry_after is None and "retry_after" not in ans:
+            opt = None
+            if rec["rk"] in ("authz", "order") and method == "POST" and 200 <= status <= 299:
+                opt = "retry_after_polls"
+            elif status in (429, 503):
+                opt = "retry_after_errors"
+            retry_after = self.o.get(opt) if opt else None
+            if isinstance(retry_after, list):
+                with self.lock:
+                    ctr = self.__dict__.setdefault("ra_count", {})
+                    k = ctr.get(opt, 0)
+                    ctr[opt] = k + 1
+                retry_after = retry_after[min(k, len(retry_after) - 1)] if retry_after else None
+        if isinstance(retry_after, str) and retry_after.startswith("date+"):
+            import email.utils
+            retry_after = email.utils.formatdate(time.time() + float(retry_after[5:]), usegmt=True)
+        if retry_after is not None:
+            arec["retry_after"] = str(retry_after)
         if isinstance(body, dict) and "type" in body and str(body.get("type", "")).startswith(ERR):
             arec["problem"] = body["type"][len(ERR):]
         self.ev(**arec)
@@ -920,6 +957,8 @@ class MockCA:
                 rq.send_header("Replay-Nonce", nonce)
             if ans.get("location"):
                 rq.send_header("Location", ans["location"])
+            if retry_after is not None:
+                rq.send_header("Retry-After", str(retry_after))
             rq.send_header("Cache-Control", "no-store")
             rq.end_headers()
             if method != "HEAD" and ans.get("cut_after") is not None:
